@@ -160,6 +160,9 @@ OVERRIDES = [
         bounded='three names, one enclosing scope; values symbolic')),
     (r'^c36_(used|forwarded)_module_', dict(functions=['output::transform::handle_item (module-loading closures of the Item::Use and Item::Forward arms; extracted ranges run against recording stand-ins)'],
         bounded='one configured variable')),
+    (r'^c13_(get_and_has_key_|get_follows|has_key_follows|get_further)', dict(functions=['sass::functions::map::find_value (complete item, extracted)', 'map.get / map.has-key closures (complete bodies, extracted; value type instantiated at atoms + nested maps behind references)'],
+        bounded='one three-entry map with a nested two-entry map; keys as rest arguments (with / without trailing comma), list, single value')),
+    (r'^c13_(get_follows|has_key_follows|get_further)', dict(kind='attempt', tier='thorough', timeout=2400)),  # measured: > 11 min each (nested lookups through the rest-argument list)
     (r'^c16_assignment_updates', dict(functions=['Scope::set_variable (flag logic after the module case; extracted range)'], bounded=None)),
     (r'^c17_for_end_unit', dict(functions=['sass::SrcRange::evaluate (unit conversion of the end value, extracted range)'],
                                 bounded='seven concrete (value, unit, unit) triples')),
